@@ -11,7 +11,7 @@ fixed_lines = 1
 rule = ("scripts = 'a handles n', a set-up (shared / immutable / no-copy / typed / full buffer), array ops, 'a end'; "
         "after every op the content read through every handle is compared (code = model, code within spec). "
         "Stream 1 is exhaustive: every op of the pool (14 op kinds x operands in {0,1,used-1,used,used+1,size,size+1} "
-        "resolved at run time) on either of 2 handles from each of 9 set-ups, all pairs of a reduced pool from 5 set-ups, "
+        "resolved at run time) on either of 2 handles from each of 10 set-ups, all pairs of a reduced pool from 5 set-ups, "
         "all triples of a small pool from 2 set-ups (thorough: all pairs of the full pool); stream 2 = slice windows "
         "(every window position x block counts/sizes, shared and private); stream 3 = random histories of length 30 "
         "over 3 handles with all flag combinations. Non-trivial = a mutating op succeeded through a handle whose "
@@ -46,6 +46,7 @@ SETUPS = {
     "p4-shared": ["a alloc h0 0 0 p4 6162636465666768", "a clone h1 h0"],
     "c-shared": ["a alloc h0 0 0 c 616263", "a clone h1 h0"],
     "full-shared": ["a alloc h0 64 0 - fill:64:30", "a clone h1 h0"],
+    "c-full-shared": ["a alloc h0 64 0 c fill:64:30", "a clone h1 h0"],
 }
 OPNDS = ["0", "1", "u-1", "u", "u+1", "s", "s+1"]
 
